@@ -1,14 +1,103 @@
 /- Stage lemmas for rexpy, part B: run-length encodings, VRLEs, cleaning, sorting. -/
 import TddaVerif.Model.Rexpy
 import TddaVerif.Props.C03Spec
+import Mathlib.Data.List.Nodup
+import Mathlib.Data.List.Perm.Subperm
 
 namespace TddaVerif.Props.C03.Lemmas
 open TddaVerif.Py TddaVerif.Rexpy TddaVerif.Props.C03
 
+/-! ### run-length encoding -/
+
+theorem rleAux_expand (cs : List Char) : ∀ (last : Char) (n : Nat),
+    ((rleAux cs last n).map (fun r => List.replicate r.2 r.1)).flatten = List.replicate n last ++ cs ∧
+    (0 < n → ∀ r ∈ rleAux cs last n, 0 < r.2) := by
+  induction cs with
+  | nil => intro last n; simp [rleAux]
+  | cons c cs ih =>
+    intro last n
+    by_cases hc : c = last
+    · subst hc
+      obtain ⟨h1, h2⟩ := ih c (n + 1)
+      simp only [rleAux, beq_self_eq_true, if_true]
+      refine ⟨?_, fun _ => h2 (Nat.succ_pos n)⟩
+      rw [h1, List.replicate_succ']; simp
+    · obtain ⟨h1, h2⟩ := ih c 1
+      have hc' : (c == last) = false := by simpa using hc
+      simp only [rleAux, hc', Bool.false_eq_true, if_false]
+      refine ⟨?_, ?_⟩
+      · simp only [List.map_cons, List.flatten_cons, h1]; simp
+      · intro hn r hr
+        rcases List.mem_cons.1 hr with rfl | hr
+        · exact hn
+        · exact h2 Nat.one_pos r hr
+
 /-- a run-length encoding describes its string: runs are non-empty and expand back to it -/
 theorem rle_expand (s : List Char) :
     ((rle s).map (fun r => List.replicate r.2 r.1)).flatten = s ∧ ∀ r ∈ rle s, 0 < r.2 := by
-  sorry
+  cases s with
+  | nil => simp [rle]
+  | cons c cs =>
+    obtain ⟨h1, h2⟩ := rleAux_expand cs c 1
+    exact ⟨by simpa [rle] using h1, h2 Nat.one_pos⟩
+
+/-! ### strip -/
+
+theorem lstrip_decompose (s : Line) : ∃ pre, s = pre ++ lstrip s ∧ ∀ c ∈ pre, isSpace c = true := by
+  induction s with
+  | nil => exact ⟨[], rfl, by simp⟩
+  | cons c cs ih =>
+    by_cases hc : isSpace c = true
+    · obtain ⟨pre, h1, h2⟩ := ih
+      refine ⟨c :: pre, ?_, ?_⟩
+      · simp only [lstrip, hc, if_true, List.cons_append]; rw [← h1]
+      · intro x hx
+        rcases List.mem_cons.1 hx with rfl | hx
+        · exact hc
+        · exact h2 x hx
+    · exact ⟨[], by simp [lstrip, hc], by simp⟩
+
+theorem rstrip_decompose (s : Line) : ∃ post, s = rstrip s ++ post ∧ ∀ c ∈ post, isSpace c = true := by
+  obtain ⟨pre, h1, h2⟩ := lstrip_decompose s.reverse
+  refine ⟨pre.reverse, ?_, ?_⟩
+  · have := congrArg List.reverse h1
+    simpa [rstrip] using this
+  · intro c hc; exact h2 c (List.mem_reverse.1 hc)
+
+/-- `strip` removes a prefix and a suffix of whitespace characters -/
+theorem strip_decompose (s : Line) :
+    ∃ pre post, s = pre ++ strip s ++ post ∧ (∀ c ∈ pre, isSpace c = true) ∧ (∀ c ∈ post, isSpace c = true) := by
+  obtain ⟨pre, h1, h2⟩ := lstrip_decompose s
+  obtain ⟨post, h3, h4⟩ := rstrip_decompose (lstrip s)
+  refine ⟨pre, post, ?_, h2, h4⟩
+  show s = pre ++ rstrip (lstrip s) ++ post
+  rw [List.append_assoc, ← h3, ← h1]
+
+/-! ### sort_by_length -/
+
+theorem insertByLen_perm (x : Pattern) (l : List Pattern) : (insertByLen x l).Perm (x :: l) := by
+  induction l with
+  | nil => simp [insertByLen]
+  | cons y ys ih =>
+    unfold insertByLen
+    split
+    · exact ((List.Perm.cons y ih).trans (List.Perm.swap x y ys))
+    · exact List.Perm.refl _
+
+theorem sortByLength_foldl_perm (ps : List Pattern) : ∀ acc : List Pattern,
+    (ps.foldl (fun acc p => insertByLen p acc) acc).Perm (ps ++ acc) := by
+  induction ps with
+  | nil => intro acc; simp
+  | cons p ps ih =>
+    intro acc
+    simp only [List.foldl_cons]
+    refine (ih _).trans ?_
+    refine ((insertByLen_perm p acc).append_left ps).trans ?_
+    simp
+
+/-- sort_by_length only reorders -/
+theorem sortByLength_perm (ps : List Pattern) : (sortByLength ps).Perm ps := by
+  simpa [sortByLength] using sortByLength_foldl_perm ps []
 
 /-- the VRLE `v` covers the run-length encoding `r`: same categories, each count within the range -/
 def Covers (v : Vrle) (r : List (Char × Nat)) : Prop :=
@@ -18,49 +107,418 @@ def Covers (v : Vrle) (r : List (Char × Nat)) : Prop :=
     let f := v.getD i ('?', 0, none)
     (match f.2.2 with | some M => f.2.1 ≤ n ∧ n ≤ M | none => min f.2.1 1 ≤ n)
 
+/-! ### grouping by signature -/
+
+theorem groupBySig_cons (r : List (Char × Nat)) (rs : List (List (Char × Nat))) :
+    groupBySig (r :: rs) =
+      (sigOf r, r :: (((groupBySig rs).find? (fun g => g.1 == sigOf r)).map (·.2)).getD []) ::
+        (groupBySig rs).filter (fun g => g.1 != sigOf r) := rfl
+
+theorem groupBySig_spec (rles : List (List (Char × Nat))) :
+    ((groupBySig rles).map (·.1)).Nodup ∧
+    (∀ g ∈ groupBySig rles, g.2 = rles.filter (fun r => sigOf r == g.1) ∧ g.2 ≠ []) ∧
+    (∀ r ∈ rles, ∃ g ∈ groupBySig rles, g.1 = sigOf r) := by
+  induction rles with
+  | nil => simp [groupBySig]
+  | cons r rs ih =>
+    obtain ⟨ih1, ih2, ih3⟩ := ih
+    rw [groupBySig_cons]
+    refine ⟨?_, ?_, ?_⟩
+    · rw [List.map_cons, List.nodup_cons]
+      refine ⟨?_, ih1.sublist (List.filter_sublist.map _)⟩
+      intro hmem
+      obtain ⟨g, hg, hg1⟩ := List.mem_map.1 hmem
+      have := (List.mem_filter.1 hg).2
+      simp at this
+      exact this hg1
+    · intro g hg
+      rcases List.mem_cons.1 hg with rfl | hg
+      · refine ⟨?_, by simp⟩
+        simp only [List.filter_cons, beq_self_eq_true, if_true]
+        congr 1
+        cases hf : (groupBySig rs).find? (fun g => g.1 == sigOf r) with
+        | none =>
+          simp only [Option.map_none, Option.getD_none]
+          symm
+          rw [List.filter_eq_nil_iff]
+          intro r' hr' hsig
+          obtain ⟨g, hg, hg1⟩ := ih3 r' hr'
+          have := List.find?_eq_none.1 hf g hg
+          apply this
+          simp only [beq_iff_eq] at hsig ⊢
+          rw [hg1, hsig]
+        | some g' =>
+          simp only [Option.map_some, Option.getD_some]
+          have h1 := List.find?_some hf
+          have h2 := List.mem_of_find?_eq_some hf
+          simp only [beq_iff_eq] at h1
+          rw [(ih2 g' h2).1, h1]
+      · obtain ⟨hg, hne⟩ := List.mem_filter.1 hg
+        have hne' : ¬ sigOf r = g.1 := by
+          intro h; simp [h] at hne
+        refine ⟨?_, (ih2 g hg).2⟩
+        rw [(ih2 g hg).1]
+        simp [hne']
+    · intro r' hr'
+      rcases List.mem_cons.1 hr' with rfl | hr'
+      · exact ⟨_, List.mem_cons_self, rfl⟩
+      · obtain ⟨g, hg, hg1⟩ := ih3 r' hr'
+        by_cases hs : g.1 = sigOf r
+        · exact ⟨_, List.mem_cons_self, by rw [← hs, hg1]⟩
+        · exact ⟨g, List.mem_cons_of_mem _ (List.mem_filter.2 ⟨hg, by simpa using hs⟩), hg1⟩
+
+theorem groupBySig_mem_group {rles : List (List (Char × Nat))} {g} (hg : g ∈ groupBySig rles)
+    {r : List (Char × Nat)} : r ∈ g.2 ↔ r ∈ rles ∧ sigOf r = g.1 := by
+  rw [((groupBySig_spec rles).2.1 g hg).1, List.mem_filter]
+  simp
+
+/-! ### min / max -/
+
+theorem listMinNat_le {l : List Nat} {x : Nat} (hx : x ∈ l) : listMinNat l ≤ x := by
+  induction l with
+  | nil => cases hx
+  | cons a l ih =>
+    cases l with
+    | nil => simp at hx; subst hx; simp [listMinNat]
+    | cons b l =>
+      simp only [listMinNat]
+      rcases List.mem_cons.1 hx with rfl | hx
+      · exact Nat.min_le_left _ _
+      · exact Nat.le_trans (Nat.min_le_right _ _) (ih hx)
+
+theorem le_listMaxNat {l : List Nat} {x : Nat} (hx : x ∈ l) : x ≤ listMaxNat l := by
+  induction l with
+  | nil => cases hx
+  | cons a l ih =>
+    simp only [listMaxNat]
+    rcases List.mem_cons.1 hx with rfl | hx
+    · exact Nat.le_max_left _ _
+    · exact Nat.le_trans (ih hx) (Nat.le_max_right _ _)
+
+/-! ### the VRLE of one group -/
+
+theorem vrleOfGroup_length (sg : List Char) (rs) : (vrleOfGroup sg rs).length = sg.length := by
+  simp [vrleOfGroup]
+
+theorem sigOf_vrleOfGroup (sg : List Char) (rs : List (List (Char × Nat))) :
+    sigOf (vrleOfGroup sg rs) = sg := by
+  apply List.ext_getElem
+  · simp [sigOf, vrleOfGroup]
+  · intro i h1 h2
+    simp only [sigOf, vrleOfGroup, List.map_map, List.getElem_map, List.getElem_range, Function.comp]
+    split <;> simp [List.getD_eq_getElem?_getD, h2]
+
+theorem vrleOfGroup_covers (sg : List Char) (rs : List (List (Char × Nat))) (r : List (Char × Nat))
+    (hr : r ∈ rs) (hsig : sigOf r = sg) (hpos : ∀ x ∈ r, 0 < x.2) : Covers (vrleOfGroup sg rs) r := by
+  refine ⟨by rw [sigOf_vrleOfGroup, hsig], ?_⟩
+  intro i hi
+  have hlen : r.length = sg.length := by rw [← hsig]; simp [sigOf]
+  have hi' : i < sg.length := hlen ▸ hi
+  have hn : (r.getD i ('?', 0)).2 ∈ rs.map (fun r => (r.getD i ('?', 0)).2) :=
+    List.mem_map.2 ⟨r, hr, rfl⟩
+  have h1 := listMinNat_le hn
+  have h2 := le_listMaxNat hn
+  have hp : 0 < (r.getD i ('?', 0)).2 := by
+    apply hpos
+    rw [List.getD_eq_getElem?_getD, List.getElem?_eq_getElem hi]
+    simp
+  have hv : (vrleOfGroup sg rs).getD i ('?', 0, none) =
+      (if listMaxNat (rs.map (fun r => (r.getD i ('?', 0)).2)) - listMinNat (rs.map (fun r => (r.getD i ('?', 0)).2)) ≤ maxVrleRange
+        then (sg.getD i '?', listMinNat (rs.map (fun r => (r.getD i ('?', 0)).2)), some (listMaxNat (rs.map (fun r => (r.getD i ('?', 0)).2))))
+        else (sg.getD i '?', 1, none)) := by
+    rw [List.getD_eq_getElem?_getD, List.getElem?_eq_getElem (by rw [vrleOfGroup_length]; exact hi')]
+    simp [vrleOfGroup]
+  dsimp only
+  rw [hv]
+  by_cases hc : listMaxNat (rs.map (fun r => (r.getD i ('?', 0)).2)) -
+      listMinNat (rs.map (fun r => (r.getD i ('?', 0)).2)) ≤ maxVrleRange
+  · rw [if_pos hc]; exact ⟨h1, h2⟩
+  · rw [if_neg hc]; simp only [Nat.min_self]; exact hp
+
+/-! ### to_vrles -/
+
+theorem mem_insertVrle (x a : Vrle) (l : List Vrle) : a ∈ insertVrle x l ↔ a = x ∨ a ∈ l := by
+  induction l with
+  | nil => simp [insertVrle]
+  | cons y ys ih =>
+    unfold insertVrle
+    split
+    · simp only [List.mem_cons, ih]
+      constructor
+      · rintro (h | h | h) <;> simp [h]
+      · rintro (h | h | h) <;> simp [h]
+    · simp only [List.mem_cons]
+
+theorem length_insertVrle (x : Vrle) (l : List Vrle) : (insertVrle x l).length = l.length + 1 := by
+  induction l with
+  | nil => simp [insertVrle]
+  | cons y ys ih =>
+    unfold insertVrle
+    split <;> simp [ih]
+
+theorem mem_foldr_insertVrle (a : Vrle) (l : List Vrle) : a ∈ l.foldr insertVrle [] ↔ a ∈ l := by
+  induction l with
+  | nil => simp
+  | cons y ys ih => simp [List.foldr_cons, mem_insertVrle, ih]
+
+theorem length_foldr_insertVrle (l : List Vrle) : (l.foldr insertVrle []).length = l.length := by
+  induction l with
+  | nil => simp
+  | cons y ys ih => simp [List.foldr_cons, length_insertVrle, ih]
+
+theorem mem_toVrles (rles : List (List (Char × Nat))) (v : Vrle) :
+    v ∈ toVrles rles ↔ ∃ g ∈ groupBySig rles, v = vrleOfGroup g.1 g.2 := by
+  unfold toVrles
+  rw [mem_foldr_insertVrle, List.mem_eraseDups, List.mem_map]
+  constructor
+  · rintro ⟨g, hg, rfl⟩; exact ⟨g, hg, rfl⟩
+  · rintro ⟨g, hg, rfl⟩; exact ⟨g, hg, rfl⟩
+
+theorem eraseDups_length_le {α} [BEq α] : ∀ (n : Nat) (l : List α), l.length ≤ n → l.eraseDups.length ≤ l.length := by
+  intro n
+  induction n with
+  | zero => intro l hl; cases l with
+    | nil => simp
+    | cons a as => simp at hl
+  | succ n ih =>
+    intro l hl
+    cases l with
+    | nil => simp
+    | cons a as =>
+      rw [List.eraseDups_cons]
+      simp only [List.length_cons, Nat.add_le_add_iff_right] at hl ⊢
+      have h1 : (as.filter (fun b => !b == a)).length ≤ as.length := List.length_filter_le _ _
+      exact Nat.le_trans (ih _ (Nat.le_trans h1 hl)) h1
+
 /-- to_vrles: every run-length encoding (with non-empty runs) is covered by the VRLE of its signature,
     and that VRLE is the only one with that signature -/
 theorem toVrles_covers (rles : List (List (Char × Nat))) (hpos : ∀ r ∈ rles, ∀ x ∈ r, 0 < x.2)
     (r : List (Char × Nat)) (hr : r ∈ rles) :
     ∃ v ∈ toVrles rles, Covers v r := by
-  sorry
+  obtain ⟨g, hg, hg1⟩ := (groupBySig_spec rles).2.2 r hr
+  refine ⟨vrleOfGroup g.1 g.2, (mem_toVrles _ _).2 ⟨g, hg, rfl⟩, ?_⟩
+  exact vrleOfGroup_covers g.1 g.2 r ((groupBySig_mem_group hg).2 ⟨hr, hg1.symm⟩) hg1.symm (hpos r hr)
 
 theorem toVrles_sig_unique (rles : List (List (Char × Nat))) (v w : Vrle)
     (hv : v ∈ toVrles rles) (hw : w ∈ toVrles rles) (h : sigOf v = sigOf w) : v = w := by
-  sorry
+  obtain ⟨g, hg, rfl⟩ := (mem_toVrles _ _).1 hv
+  obtain ⟨g', hg', rfl⟩ := (mem_toVrles _ _).1 hw
+  rw [sigOf_vrleOfGroup, sigOf_vrleOfGroup] at h
+  have := List.inj_on_of_nodup_map (groupBySig_spec rles).1 hg hg' h
+  rw [this]
 
 /-- every VRLE comes from at least one of the run-length encodings -/
 theorem toVrles_from (rles : List (List (Char × Nat))) (v : Vrle) (hv : v ∈ toVrles rles) :
     ∃ r ∈ rles, sigOf r = sigOf v := by
-  sorry
+  obtain ⟨g, hg, rfl⟩ := (mem_toVrles _ _).1 hv
+  obtain ⟨_, hne⟩ := (groupBySig_spec rles).2.1 g hg
+  obtain ⟨r, hr⟩ := List.exists_mem_of_ne_nil _ hne
+  obtain ⟨h1, h2⟩ := (groupBySig_mem_group hg).1 hr
+  exact ⟨r, h1, by rw [sigOf_vrleOfGroup, h2]⟩
 
 theorem toVrles_length_le (rles : List (List (Char × Nat))) : (toVrles rles).length ≤ rles.eraseDups.length := by
-  sorry
+  unfold toVrles
+  rw [length_foldr_insertVrle]
+  refine Nat.le_trans (eraseDups_length_le _ _ (Nat.le_refl _)) ?_
+  rw [List.length_map]
+  have hsub : (groupBySig rles).map (·.1) ⊆ rles.eraseDups.map sigOf := by
+    intro k hk
+    obtain ⟨g, hg, rfl⟩ := List.mem_map.1 hk
+    obtain ⟨_, hne⟩ := (groupBySig_spec rles).2.1 g hg
+    obtain ⟨r, hr⟩ := List.exists_mem_of_ne_nil _ hne
+    obtain ⟨h1, h2⟩ := (groupBySig_mem_group hg).1 hr
+    exact List.mem_map.2 ⟨r, List.mem_eraseDups.2 h1, h2⟩
+  have := ((groupBySig_spec rles).1.subperm hsub).length_le
+  simpa using this
 
-/-- sort_by_length only reorders -/
-theorem sortByLength_perm (ps : List Pattern) : (sortByLength ps).Perm ps := by
-  sorry
+/-! ### clean -/
+
+/-- one step of the loop in `clean` -/
+def cleanStep (stripOpt removeEmpties : Bool) (st : List (Line × Nat) × Nat) (it : Option Line × Nat) :
+    List (Line × Nat) × Nat :=
+  match it.1 with
+  | none => st
+  | some s =>
+    if it.2 == 0 then st
+    else
+      let t := if stripOpt then strip s else s
+      if removeEmpties && t.isEmpty then st
+      else (bump t it.2 st.1, if t.length != s.length then st.2 + it.2 else st.2)
+
+theorem clean_strings_eq (so re : Bool) (items : List (Option Line × Nat)) :
+    (clean so re items).strings = ((items.foldl (cleanStep so re) ([], 0)).1).map (·.1) := rfl
+
+theorem clean_nStripped_eq (so re : Bool) (items : List (Option Line × Nat)) :
+    (clean so re items).nStripped = (items.foldl (cleanStep so re) ([], 0)).2 := rfl
+
+theorem bump_keys (k : Line) (n : Nat) (acc : List (Line × Nat)) :
+    (bump k n acc).map (·.1) = if k ∈ acc.map (·.1) then acc.map (·.1) else acc.map (·.1) ++ [k] := by
+  induction acc with
+  | nil => simp [bump]
+  | cons a acc ih =>
+    obtain ⟨k', m⟩ := a
+    by_cases hk : k' = k
+    · subst hk; simp [bump]
+    · have hk' : (k' == k) = false := by simpa using hk
+      have hk2 : ¬ k = k' := fun h => hk h.symm
+      simp only [bump, hk', Bool.false_eq_true, if_false, List.map_cons, ih, List.mem_cons, hk2, false_or]
+      split <;> simp
+
+/-- the stripped text of a kept item -/
+def keptAs (so re : Bool) (it : Option Line × Nat) (t : Line) : Prop :=
+  ∃ s, it.1 = some s ∧ it.2 ≠ 0 ∧ t = (if so then strip s else s) ∧ ¬ (re = true ∧ t = [])
+
+theorem cleanStep_keys (so re : Bool) (st : List (Line × Nat) × Nat) (it : Option Line × Nat) :
+    ((cleanStep so re st it).1.map (·.1) = st.1.map (·.1) ∧ (cleanStep so re st it).2 = st.2 ∧
+        ∀ t, ¬ keptAs so re it t) ∨
+    ∃ t, keptAs so re it t ∧ (∀ t', keptAs so re it t' → t' = t) ∧
+      (cleanStep so re st it).1.map (·.1) = (if t ∈ st.1.map (·.1) then st.1.map (·.1) else st.1.map (·.1) ++ [t]) := by
+  obtain ⟨o, n⟩ := it
+  cases o with
+  | none => left; exact ⟨rfl, rfl, by rintro t ⟨s, h, _⟩; cases h⟩
+  | some s =>
+    by_cases hn : n = 0
+    · left; refine ⟨by simp [cleanStep, hn], by simp [cleanStep, hn], ?_⟩
+      rintro t ⟨s', _, h, _⟩; exact h hn
+    · by_cases hr : (re && (if so then strip s else s).isEmpty) = true
+      · left; refine ⟨by simp [cleanStep, hr], by simp [cleanStep, hr], ?_⟩
+        rintro t ⟨s', h1, _, h3, h4⟩
+        cases h1
+        apply h4
+        subst h3
+        simpa [List.isEmpty_iff] using hr
+      · right
+        refine ⟨if so then strip s else s, ⟨s, rfl, hn, rfl, ?_⟩, ?_, ?_⟩
+        · simpa [List.isEmpty_iff] using hr
+        · rintro t' ⟨s', h1, _, h3, _⟩
+          cases h1; exact h3
+        · simp only [cleanStep, beq_iff_eq, hn, if_false, hr, Bool.false_eq_true]
+          exact bump_keys _ _ _
+
+theorem cleanStep_mem (so re : Bool) (st : List (Line × Nat) × Nat) (it : Option Line × Nat) (t : Line) :
+    t ∈ (cleanStep so re st it).1.map (·.1) ↔ t ∈ st.1.map (·.1) ∨ keptAs so re it t := by
+  rcases cleanStep_keys so re st it with ⟨h1, _, h2⟩ | ⟨t0, h1, h2, h3⟩
+  · rw [h1]; exact ⟨Or.inl, fun h => h.resolve_right (h2 t)⟩
+  · rw [h3]
+    constructor
+    · intro h
+      split at h
+      · exact Or.inl h
+      · rcases List.mem_append.1 h with h | h
+        · exact Or.inl h
+        · rw [List.mem_singleton.1 h]; exact Or.inr h1
+    · rintro (h | h)
+      · split
+        · exact h
+        · exact List.mem_append_left _ h
+      · rw [h2 t h]
+        split
+        · assumption
+        · simp
+
+theorem cleanStep_nodup (so re : Bool) (st : List (Line × Nat) × Nat) (it : Option Line × Nat)
+    (h : (st.1.map (·.1)).Nodup) : ((cleanStep so re st it).1.map (·.1)).Nodup := by
+  rcases cleanStep_keys so re st it with ⟨h1, _, _⟩ | ⟨t0, _, _, h3⟩
+  · rw [h1]; exact h
+  · rw [h3]
+    split
+    · exact h
+    · rename_i hnot
+      exact List.nodup_append.2 ⟨h, List.nodup_singleton _, by
+        intro a ha b hb; rw [List.mem_singleton.1 hb]; rintro rfl; exact hnot ha⟩
+
+theorem cleanFold_mem (so re : Bool) (items : List (Option Line × Nat)) :
+    ∀ (st : List (Line × Nat) × Nat) (t : Line),
+      t ∈ (items.foldl (cleanStep so re) st).1.map (·.1) ↔
+        t ∈ st.1.map (·.1) ∨ ∃ it ∈ items, keptAs so re it t := by
+  induction items with
+  | nil => intro st t; simp
+  | cons it items ih =>
+    intro st t
+    rw [List.foldl_cons, ih, cleanStep_mem]
+    simp only [List.mem_cons, exists_eq_or_imp, or_assoc]
+
+theorem cleanFold_nodup (so re : Bool) (items : List (Option Line × Nat)) :
+    ∀ (st : List (Line × Nat) × Nat), (st.1.map (·.1)).Nodup →
+      ((items.foldl (cleanStep so re) st).1.map (·.1)).Nodup := by
+  induction items with
+  | nil => intro st h; exact h
+  | cons it items ih =>
+    intro st h
+    rw [List.foldl_cons]
+    exact ih _ (cleanStep_nodup so re st it h)
 
 /-- clean: the cleaned strings are exactly the kept, stripped examples, each once -/
 theorem clean_strings (stripOpt removeEmpties : Bool) (items : List (Option Line × Nat)) (t : Line) :
     t ∈ (clean stripOpt removeEmpties items).strings ↔
       ∃ s n, (some s, n) ∈ items ∧ n ≠ 0 ∧ t = (if stripOpt then strip s else s) ∧
              ¬ (removeEmpties = true ∧ t = []) := by
-  sorry
+  rw [clean_strings_eq, cleanFold_mem]
+  simp only [List.map_nil, List.not_mem_nil, false_or, keptAs]
+  constructor
+  · rintro ⟨⟨o, n⟩, hit, s, h1, h2, h3, h4⟩
+    simp only at h1 h2
+    subst h1
+    exact ⟨s, n, hit, h2, h3, h4⟩
+  · rintro ⟨s, n, hit, h2, h3, h4⟩
+    exact ⟨(some s, n), hit, s, rfl, h2, h3, h4⟩
 
 theorem clean_nodup (stripOpt removeEmpties : Bool) (items : List (Option Line × Nat)) :
     (clean stripOpt removeEmpties items).strings.Nodup := by
-  sorry
+  rw [clean_strings_eq]
+  exact cleanFold_nodup _ _ _ _ (by simp)
 
-/-- if stripping changed no example, the cleaned strings are the kept examples themselves -/
+theorem cleanStep_mono (so re : Bool) (st : List (Line × Nat) × Nat) (it : Option Line × Nat) :
+    st.2 ≤ (cleanStep so re st it).2 := by
+  obtain ⟨o, n⟩ := it
+  cases o with
+  | none => exact Nat.le_refl _
+  | some s =>
+    by_cases hn : n = 0
+    · simp [cleanStep, hn]
+    · by_cases hr : (re && (if so then strip s else s).isEmpty) = true
+      · simp [cleanStep, hr]
+      · simp only [cleanStep, beq_iff_eq, hn, if_false, hr, Bool.false_eq_true]
+        generalize (if so then strip s else s) = t
+        by_cases hl : (t.length != s.length) = true <;> simp [hl]
+
+theorem cleanFold_mono (so re : Bool) (items : List (Option Line × Nat)) :
+    ∀ (st : List (Line × Nat) × Nat), st.2 ≤ (items.foldl (cleanStep so re) st).2 := by
+  induction items with
+  | nil => intro st; exact Nat.le_refl _
+  | cons it items ih =>
+    intro st
+    rw [List.foldl_cons]
+    exact Nat.le_trans (cleanStep_mono so re st it) (ih _)
+
+theorem cleanFold_zero (re : Bool) (items : List (Option Line × Nat)) (s : Line) (n : Nat) (hn : n ≠ 0)
+    (hne : ¬ (re = true ∧ strip s = [])) :
+    ∀ (st : List (Line × Nat) × Nat), (items.foldl (cleanStep true re) st).2 = 0 →
+      (some s, n) ∈ items → (strip s).length = s.length := by
+  induction items with
+  | nil => intro st _ h; cases h
+  | cons it items ih =>
+    intro st h0 hmem
+    rw [List.foldl_cons] at h0
+    rcases List.mem_cons.1 hmem with rfl | hmem
+    · by_contra hlen
+      have hr : ¬ ((re && (strip s).isEmpty) = true) := by
+        simpa [List.isEmpty_iff] using hne
+      have : (cleanStep true re st (some s, n)).2 = st.2 + n := by
+        simp [cleanStep, hn, hr, hlen]
+      have h1 := cleanFold_mono true re items (cleanStep true re st (some s, n))
+      omega
+    · exact ih _ h0 hmem
+
+/-- if stripping changed no example, every kept example is unchanged by stripping.
+    (Examples dropped by `remove_empties` are skipped before the length test, so they must be
+    excluded: `clean true true [(some "  ", 1)]` has `nStripped = 0`.) -/
 theorem clean_nStripped_zero (stripOpt removeEmpties : Bool) (items : List (Option Line × Nat))
     (h : (clean stripOpt removeEmpties items).nStripped = 0) (s : Line) (n : Nat)
-    (hs : (some s, n) ∈ items) (hn : n ≠ 0) (hst : stripOpt = true) : (strip s).length = s.length := by
-  sorry
-
-/-- `strip` removes a prefix and a suffix of whitespace characters -/
-theorem strip_decompose (s : Line) :
-    ∃ pre post, s = pre ++ strip s ++ post ∧ (∀ c ∈ pre, isSpace c = true) ∧ (∀ c ∈ post, isSpace c = true) := by
-  sorry
+    (hs : (some s, n) ∈ items) (hn : n ≠ 0) (hst : stripOpt = true)
+    (hne : ¬ (removeEmpties = true ∧ strip s = [])) : (strip s).length = s.length := by
+  subst hst
+  rw [clean_nStripped_eq] at h
+  exact cleanFold_zero removeEmpties items s n hn hne _ h hs
 
 end TddaVerif.Props.C03.Lemmas
